@@ -4,6 +4,7 @@ import RF.Driver.FormatLines
 import RF.Driver.FileLines
 import RF.Driver.FormatDiff
 import RF.Driver.Backup
+import RF.Driver.Modules
 /-!
 `rfmodel`: one request per line on stdin, one response per line on stdout.
 `?` is printed for a request no handler understands (the harness treats it as a protocol error,
@@ -16,7 +17,8 @@ def handlers : List (String → List String → Option String) :=
    RF.Driver.FormatLines.handle,
    RF.Driver.FileLines.handle,
    RF.Driver.FormatDiff.handle,
-   RF.Driver.Backup.handle]
+   RF.Driver.Backup.handle,
+   RF.Driver.Modules.handle]
 
 def dispatch (line : String) : String :=
   match (line.trimAscii.toString.splitOn " ").filter (· ≠ "") with
